@@ -35,6 +35,10 @@ RULE = ("loaders whose parent/child/included files carry different autoescape se
         "value must not occur in the output; every output is compared with the owner-based interpretation; "
         "non-trivial = at least two files with different settings or an expression inside include/block/apply")
 EXHAUSTIVE = {"quick": False, "thorough": False}
+CLAUSE_CAVEATS = [
+    'for included / inherited / applied blocks the theorem is about which escape function wraps each expression in the GENERATED CODE (expr_uses_owner_file_autoescape); that the emitted OUTPUT is escaped there is decided by the tie',
+    "interp_expr, expr_bytes_type_blind, number_not_exempt, genO_expr are definitional unfoldings; the content for 'whatever its type' is escaped_output_safe plus the value-kind enumeration of the tie",
+]
 CLAUSES = {
     "the output of every expression tag contains the value only in escaped form, whatever its type or content":
         "escaped_output_safe, safe_escape, utf8_escape_comm, interp_expr, expr_bytes_type_blind, number_not_exempt "
